@@ -32,17 +32,17 @@ var _ io.Reader = (*lockedRand)(nil)
 
 // Node is one party instance attached to the synchronous network
 type Node struct {
-	Name    string
-	ID      *tss.PartyID
-	Party   tss.Party
-	Role    string // "" | "old" | "new"
-	Out     chan tss.Message
+	Name     string
+	ID       *tss.PartyID
+	Party    tss.Party
+	Role     string // "" | "old" | "new"
+	Out      chan tss.Message
 	drainEnd func() []interface{} // results emitted on the end channel since the last call
-	Started bool
-	Ends    []interface{}
-	Err     *tss.Error
-	Emitted []tss.Message
-	Rand    *lockedRand
+	Started  bool
+	Ends     []interface{}
+	Err      *tss.Error
+	Emitted  []tss.Message
+	Rand     *lockedRand
 }
 
 type Delivery struct {
@@ -84,6 +84,9 @@ type Net struct {
 	Panics []string
 	// Delivered logs every delivery made (for transcript re-judgement)
 	Delivered []*Delivery
+	// StopOnError: a party that has reported an error receives nothing more (the caller's contract:
+	// the library does not latch a failed session)
+	StopOnError bool
 }
 
 func shortType(t string) string {
@@ -211,6 +214,9 @@ func (n *Net) Deliver(k int, keep bool) {
 	d := n.Pending[k]
 	if !keep {
 		n.Pending = append(n.Pending[:k], n.Pending[k+1:]...)
+	}
+	if n.StopOnError && n.Nodes[d.To].Err != nil {
+		return
 	}
 	n.Delivered = append(n.Delivered, d)
 	nd := n.Nodes[d.To]
